@@ -317,6 +317,32 @@ def b_cycles_column(ctx):
                 ctx.fail('C14:cycles-column-ignored', f'range_histogram of a collective with cycles column {cyc} sums to {h.sum()} (number of rows), not to the {sum(cyc)} cycles',
                          "import pandas as pd\nimport pylife.stress.collective\ndf = pd.DataFrame({'from': [0.0, 3.0], 'to': [1.0, -2.0], 'cycles': [2.5, 10.0]})\n"
                          "h = df.load_collective.range_histogram(2).to_pandas()\nprint(h)\nassert h.sum() == 12.5, h.sum()\n")
+    # LoadCollective.scale / shift on collectives that carry a cycles column and a further column, the columns listed in every order: from / to are transformed,
+    # everything else is untouched (added after seed C14-i transformed the positional slice of columns between 'from' and 'to')
+    import itertools
+    base = {'from': [0.0, 3.0, -2.0], 'to': [1.0, -2.0, 4.0], 'cycles': [10.0, 200.0, 3000.0], 'note': [0.5, 0.25, 0.125]}
+    for order in itertools.permutations(['from', 'to', 'cycles', 'note']):
+        df = pd.DataFrame({c: base[c] for c in order}, index=pd.Index([5, 3, 9], name='cycle_number'))
+        a0, m0 = np.asarray(df.load_collective.amplitude, dtype=float), np.asarray(df.load_collective.meanstress, dtype=float)
+        for op, operand in (('scale', 2.5), ('scale', -0.5), ('shift', 7.0)):
+            ctx.case(True, key=('collective-columns', order, op, operand))
+            try:
+                res = getattr(df.load_collective, op)(operand)
+                out = res.to_pandas()
+                a1, m1 = np.asarray(res.amplitude, dtype=float), np.asarray(res.meanstress, dtype=float)
+            except Exception as e:   # noqa
+                ctx.fail(f'C14:collective-{op}:raises', f'{op}({operand}) on a collective with the columns {list(order)} raises {type(e).__name__}: {str(e)[:120]}', {'columns': list(order)})
+                continue
+            want_a = abs(operand) * a0 if op == 'scale' else a0
+            want_m = operand * m0 if op == 'scale' else m0 + operand
+            bad = []
+            if not np.allclose(a1, want_a, rtol=1e-12, atol=1e-12) or not np.allclose(m1, want_m, rtol=1e-12, atol=1e-12):
+                bad.append(f'amplitude / mean {a1.tolist()} / {m1.tolist()}, expected {want_a.tolist()} / {want_m.tolist()}')
+            for c in ('cycles', 'note'):
+                if c not in out.columns or not np.array_equal(np.asarray(out[c], dtype=float), np.asarray(base[c], dtype=float)):
+                    bad.append(f'column {c} became {np.asarray(out[c], dtype=float).tolist() if c in out.columns else "missing"}')
+            if bad:
+                ctx.fail(f'C14:collective-{op}:other-columns' if len(bad) and 'column' in bad[-1] else f'C14:collective-{op}:values', f'{op}({operand}) on a collective with the columns {list(order)}: ' + '; '.join(bad), {'columns': list(order), 'operand': operand})
     ctx.sample({'from': [0.0, 3.0], 'to': [1.0, -2.0], 'cycles': [2.5, 10.0]})
 
 
